@@ -65,9 +65,9 @@ def main():
             if fn.endswith(".json"):
                 os.remove(os.path.join(rd, fn))
     caught = [p for p in props if results.get(p, {}).get("exit") == 1]
-    json.dump({"tier": tier, "ran_at": time.strftime("%Y-%m-%dT%H:%M:%S"), "results": results,
+    json.dump({"tier": tier, "seed": os.environ.get("VERIF_SEED", "default"), "ran_at": time.strftime("%Y-%m-%dT%H:%M:%S"), "results": results,
                "caught_by": caught, "detected": bool(caught)},
-              open(os.path.join(d, "result.json"), "w"), indent=1)
+              open(os.path.join(d, os.environ.get("SEEDED_RESULT", "result.json")), "w"), indent=1)
     print("DETECTED" if caught else "MISSED", meta.get("name", os.path.basename(d)))
     return 0
 
